@@ -372,6 +372,10 @@ func TestC16(t *testing.T) {
 		wd := &watchdog{cur: map[int]opInfo{}}
 		vtrace.Take()
 		w, err := newWorld(seed, 2+sc%3, wd)
+		if err != nil { // a loaded machine: once more
+			time.Sleep(500 * time.Millisecond)
+			w, err = newWorld(seed, 2+sc%3, wd)
+		}
 		if err != nil {
 			res.Inconclusive("rig", err.Error(), sc)
 			sio.VerifSetGate(nil)
